@@ -32,6 +32,7 @@ def check(run):
              'unguarded')
     for cfg in configs(run, extra_quick=('nd',)):
         F = run.facts(cfg)
+        if cfg == 'base': __import__('common').pins(run, F, 'core_defaults')
         tl.check_structs(run, F)
         tl.check_consumers(run, F)
         tl.check_write_trust_iter(run, F)
